@@ -202,6 +202,15 @@ def oracle(case):
             cg, fine = sut(lambda: MoleculeResolver.from_string(text + '.' + case['frags']).resolve_all())
             for k in annotated:
                 _check_attrs(dict(cg.nodes[k]), want, 'coarse graph of %s node %d' % (text, k), False)
+            # the base graph handed over as a hand-made graph: plain nodes carry a fragname only
+            g2 = sut(read_cgsmiles, text)
+            for n in g2.nodes:
+                if n not in annotated:
+                    for key_ in ('charge', 'weight'):
+                        g2.nodes[n].pop(key_, None)
+            cg2, _f2 = sut(lambda: MoleculeResolver.from_graph(case['frags'], g2).resolve_all())
+            for k in annotated:
+                _check_attrs(dict(cg2.nodes[k]), want, 'from_graph(hand-made graph of %s) node %d' % (text, k), False)
             continue
         coarse = (level == 'coarse')
         full = case['base'] + '.{#X=' + text + '}'
